@@ -5,6 +5,9 @@ import "github.com/metrico/qryn/writer/utils/helpers"
 type ParserResponse struct {
 	Error             error
 	TimeSeriesRequest helpers.SizeGetter
+	// TimeSeriesFpKeys are the fingerprint-cache keys of the rows of TimeSeriesRequest. They are to be
+	// set in the cache only after the rows have been stored.
+	TimeSeriesFpKeys  []uint64
 	SamplesRequest    helpers.SizeGetter
 	SpansAttrsRequest helpers.SizeGetter
 	SpansRequest      helpers.SizeGetter
